@@ -66,7 +66,7 @@ PLANS.update({
     },
     "C07": {
         "quick": [job("c07"), job("c07", profile="relwrap")],
-        "thorough": [job("c07"), job("c07", profile="relwrap")],
+        "thorough": [job("c07"), job("c07", profile="relwrap"), job("mirismoke", miri=True, shards=8, timeout=1800, args={"n": 30})],
         "floor": 100000,
     },
     "C09": {
@@ -117,7 +117,7 @@ PLANS.update({
     },
     "C17": {
         "quick": [job("c17"), job("c17", variant="noalloc")],
-        "thorough": [job("c17"), job("c17", variant="noalloc"), job("c17", profile="relwrap")],
+        "thorough": [job("c17"), job("c17", variant="noalloc"), job("c17", profile="relwrap"), job("mirismoke", miri=True, shards=8, timeout=1800, args={"n": 30}), job("mirismoke", miri=True, variant="noalloc", shards=4, timeout=1800, args={"n": 30})],
         "floor": 100000,
     },
 })
